@@ -422,3 +422,24 @@ fn c05_responses_with_malformed_compact_fields_never_panic() {
     kani::cover!(r.is_err() && kind == 2 && nodes_ok && sp_len == 0);
     core::mem::forget(r);
 }
+
+// ---- C05: the two pre-checks of Message::from_bytes --------------------------------------------
+fn stub_mirror_from_bytes(_bytes: &[u8]) -> Result<internal::DHTMessage, serde_bencode::Error> {
+    Err(serde_bencode::Error::EndOfStream)
+}
+
+/// datagrams shorter than 15 bytes (including the empty one) and datagrams that do not start with
+/// `d` are rejected before the bencode parser is reached — and without a panic
+#[kani::proof]
+#[kani::unwind(4)]
+#[kani::stub(internal::DHTMessage::from_bytes, stub_mirror_from_bytes)]
+fn c05_short_or_non_dictionary_datagrams_are_rejected_without_a_panic() {
+    let buf: [u8; 16] = kani::any();
+    let len: usize = kani::any();
+    kani::assume(len <= 16);
+    let r = Message::from_bytes(&buf[..len]);
+    assert!(r.is_err(), "C05: nothing shorter than a KRPC message decodes (the parser stand-in rejects the rest)");
+    kani::cover!(len == 0);
+    kani::cover!(len == 15 && buf[0] == b'd');
+    core::mem::forget(r);
+}
